@@ -182,6 +182,59 @@ def confirm(rep, oid, m, lit, qin, style, SI, kind):
     rep.add(oid, status, v)
 
 
+NUMBERS = {
+    "lua51": [".5", "5.", "0.5", "3.25", "1e5", ".5e-3", "1E+10", "0x10", "0xA", "0xff", "007", "1.5e3"],
+    "lua52": [".5", "0x.8p1", "0xA.8p1", "0xff.fp0", "0xB.4", "0x1.8p3", "0X1P4", "0xA.", "0x.1", "1e-2", "0xAp1", "0xa.bp-2"],
+    "lua54": [".5", "0xA.8p1", "0xfe.dcp2", "3.", "0x.8", "1e2", "0xF.Fp0"],
+    "luau": [".5", "1_000", "0b101", "0x_ff", "1_0.5", "0xA", ".5e1", "1e_1", "0B11", "0xFF_FF"],
+    "luajit": [".5", "42LL", "0x2aULL", "12i", "0.5", "0xA"],
+}
+
+
+def number_value(text, syn):
+    t = text.replace("_", "") if syn == "luau" else text
+    low = t.lower()
+    for suf in ("ull", "ll", "i"):
+        if syn == "luajit" and low.endswith(suf) and not low.startswith("0x") or (syn == "luajit" and low.startswith("0x") and low.endswith(suf) and suf != "i"):
+            return (suf, number_value(t[:-len(suf)], "lua51"))
+    if low.startswith("0b"):
+        return float(int(low[2:], 2))
+    if low.startswith("0x"):
+        h = low
+        if "p" not in h:
+            h += "p0"
+        return float.fromhex(h)
+    return float(low)
+
+
+def number_battery():
+    """replay: every listed spelling keeps its value under its dialect. -> (violation, record) or (None, record)"""
+    binp = common.native_build("full")
+    tried = 0
+    for syn, lits in NUMBERS.items():
+        for lit in lits:
+            for neg in ("", "-"):
+                src = f"local n = {neg}{lit}\n"
+                rc, out, err = common.run_stylua(binp, src, ["--syntax", syn])
+                if rc != 0:
+                    continue
+                tried += 1
+                try:
+                    toks = [t for t in luaexpr.tokenize(out) if t[0] != "comment"]
+                except luaexpr.LuaSyntaxError:
+                    toks = []
+                m = re.match(r"local n = (-?)\s*(\S+)\s*$", out.strip())
+                if not m:
+                    return f"number statement rewritten beyond recognition ({syn})", {"source": src, "syntax": syn, "output": out}
+                try:
+                    vin, vout = number_value(lit, syn), number_value(m.group(2), syn)
+                except ValueError:
+                    return f"output number {m.group(2)!r} is not a valid {syn} literal", {"source": src, "syntax": syn, "output": out}
+                if vin != vout or m.group(1) != neg:
+                    return f"numeric value changed ({syn}): {neg}{lit} -> {m.group(1)}{m.group(2)}", {"source": src, "syntax": syn, "output": out}
+    return None, {"tried": tried}
+
+
 def numbers(ses, rep):
     """Number arm of format_token: only a leading `.` (or `-.`) gets a `0` inserted, nothing is dropped. Symbolic execution of
     format_token restricted to TokenType::Number with the text's prefix tests as free Booleans; obligations on what is
@@ -219,6 +272,7 @@ def numbers(ses, rep):
     if not tts:
         raise Inconclusive("format_token does not inspect token_type()")
     num = ex.enums.index("TokenType", "Number")
+    number_flags = []
     n = 0
     dot, mdot = z3.Bool("starts_with:."), z3.Bool("starts_with:-.")
     for pi, o in enumerate(outs):
@@ -236,7 +290,7 @@ def numbers(ses, rep):
         want = z3.If(dot, z3.BoolVal(froms == ["0"]), z3.If(mdot, z3.BoolVal(froms == ["-0"]), z3.BoolVal(froms == [])))
         r, m = ses.obligation(oid + "/prefix", pc, z3.Not(want), f"prepends {froms}: '0' iff leading '.', '-0' iff leading '-.', else nothing")
         if r == "sat":
-            rep.add(oid + "/prefix", "inconclusive", f"number rewrite prepends {froms} outside the documented cases (needs a number replay; flagged for review)")
+            number_flags.append((oid + "/prefix", f"number rewrite prepends {froms} outside the documented cases"))
         # what is sliced away: only one character (the '-') and only on the '-.' path
         sl = []
         for g in gets:
@@ -247,15 +301,31 @@ def numbers(ses, rep):
         want2 = z3.If(z3.And(z3.Not(dot), mdot), z3.BoolVal(sl == [1]), z3.BoolVal(sl == []))
         r, m = ses.obligation(oid + "/slice", pc, z3.Not(want2), f"slices {sl}: text[1..] only on the '-.' path")
         if r == "sat":
-            rep.add(oid + "/slice", "inconclusive", f"number rewrite drops characters {sl} outside the '-.' case (flagged for review)")
+            number_flags.append((oid + "/slice", f"number rewrite drops characters {sl} outside the '-.' case"))
     rep.bounds["number_paths"] = n
     if n == 0:
-        raise Inconclusive("no path of format_token is specific to TokenType::Number")
+        number_flags.append(("number/arm-not-recognised", "no path of format_token is specific to TokenType::Number"))
+    if number_flags:
+        # the arm no longer has the encoded shape: fall back to the concrete battery; an alarm needs a reproduced value change
+        v, rec = number_battery()
+        for oid, what in number_flags[:6]:
+            if v is None:
+                rep.add(oid, "inconclusive", f"{what}; the number battery ({rec.get('tried')} literals) shows no value change")
+            else:
+                status = rep.violation({"obligation": "number", "observed": v.split(":")[0]}, {"what": what, "observed": v, "kind": "number", **rec})
+                rep.add(oid, status, v)
 
 
 def replay(path):
     d = json.load(open(path))
     r = d["replay"]
+    if r.get("kind") == "number":
+        v, rec = number_battery()
+        print(v or "number battery: no value change")
+        if v:
+            print(f"VIOLATION property=C04 replay={path}")
+            return 1
+        return 0
     v, rec = replay_literal(r["body"], r["quote"], r["style"])
     print(v or "property holds for the recorded literal")
     if v:
